@@ -3,10 +3,9 @@ CONSTANTS
   NF = 3
   Vals = {0, 1}
   IsBlob = FALSE
-  SetterMarksDirty = FALSE
+  SetterMarksDirty = TRUE
   ExplicitSha1Recomputes = TRUE
-  DirtyUntilSerialized = TRUE
+  DirtyUntilSerialized = FALSE
   ChunkedResetsSha = TRUE
-INVARIANT IdIsHash
-INVARIANT SerCurrent
+INVARIANT NoStaleAfterFailure
 CHECK_DEADLOCK FALSE
